@@ -346,6 +346,45 @@ pub fn c15(ctx: &mut Ctx) {
         let body: Vec<u8> = s.iter().flat_map(|&i| bw[i as usize].to_be_bytes()).collect();
         home_case(l, F::Sli, &body, idx);
     });
+    // SLI: relations between neighbouring entries - the second starts where the first ends (or one before / after),
+    // same or another picture, zero or non-zero numbers, both orders, alone / between others / followed by a third run
+    ctx.run_space("sli-neighbouring-runs", 3 * 2 * 2 * 2 * 2 * 3, move |idx, l| {
+        let d = [-1i32, 0, 1][(idx % 3) as usize];
+        let same_pic = (idx / 3) % 2 == 0;
+        let n1 = [5u32, 0][((idx / 6) % 2) as usize];
+        let n2 = [7u32, 0][((idx / 12) % 2) as usize];
+        let swap = (idx / 24) % 2 == 1;
+        let w = |first: u32, number: u32, pic: u32| ((first & 0x1FFF) << 19) | ((number & 0x1FFF) << 6) | (pic & 0x3F);
+        let e1 = w(100, n1, 9);
+        let e2 = w((100 + n1 as i32 + d) as u32, n2, if same_pic { 9 } else { 10 });
+        let mut v = if swap { vec![e2, e1] } else { vec![e1, e2] };
+        match idx / 48 {
+            1 => {
+                v.insert(0, w(1, 1, 1));
+                v.push(w(4000, 3, 2));
+            }
+            2 => v.push(w(100 + n1 + n2, 2, 9)),
+            _ => {}
+        }
+        let body: Vec<u8> = v.iter().flat_map(|x| x.to_be_bytes()).collect();
+        home_case(l, F::Sli, &body, idx);
+    });
+    // FIR: neighbouring entries with equal / different SSRC x equal / different sequence number, 2 and 3 entries
+    ctx.run_space("fir-neighbouring-entries", 2 * 2 * 2 * 2, move |idx, l| {
+        let e = |ssrc: u32, seq: u8| {
+            let mut b = ssrc.to_be_bytes().to_vec();
+            b.extend_from_slice(&[seq, 0, 0, 0]);
+            b
+        };
+        let s2 = if idx % 2 == 0 { 0x0A0B_0C0D } else { 0x0A0B_0C0E };
+        let q2 = if (idx / 2) % 2 == 0 { 4 } else { 5 };
+        let mut body = e(0x0A0B_0C0D, 4);
+        body.extend(e(s2, q2));
+        if (idx / 4) % 2 == 1 {
+            body.extend(e(0x0A0B_0C0D, if idx / 8 == 0 { 4 } else { 6 }));
+        }
+        home_case(l, F::Fir, &body, idx);
+    });
     // FIR: 0..=3 entries over walk-ish values (+0 / 4 trailing bytes)
     let fe: [[u8; 8]; 8] = [
         [0, 0, 0, 0, 0, 0, 0, 0],
